@@ -39,6 +39,17 @@ def linear_form(expr, func: FuncInfo, depth=0):
         if r is None:
             return None
         return linear_form(r[0], r[1], depth + 1)
+    if isinstance(expr, ast.IfExp):
+        # `x if x is not None else default` / `default if x is None else x` / `x if x else default`:
+        # the non-default branch has the form of x
+        t = expr.test
+        if isinstance(t, ast.Compare) and len(t.ops) == 1 and isinstance(t.left, ast.Name) and isinstance(t.ops[0], (ast.Is, ast.IsNot)) and isinstance(t.comparators[0], ast.Constant) and t.comparators[0].value is None:
+            chosen = expr.orelse if isinstance(t.ops[0], ast.Is) else expr.body
+            if isinstance(chosen, ast.Name) and chosen.id == t.left.id:
+                return linear_form(chosen, func, depth + 1)
+        if isinstance(t, ast.Name) and isinstance(expr.body, ast.Name) and expr.body.id == t.id:
+            return linear_form(expr.body, func, depth + 1)
+        return None
     if isinstance(expr, ast.BoolOp) and isinstance(expr.op, ast.Or) and len(expr.values) == 2:
         # `concurrency or 128`: the non-default branch has the form of the first operand
         return linear_form(expr.values[0], func, depth + 1)
